@@ -54,9 +54,9 @@ class CoreGen:
         leaves = [S('a'), S('b'), S('ab'), S('ba'), S('aa'), S(''), RX_A_PLUS, RX_A_STAR,
                   RX_B_OR_AB, RX_AB_CLASS, RX_A_LAZY, ['fail']]
         if not self.bm:
-            leaves += [['stri', T('a')], ['stri', T('Ab')], RX_ICASE]
+            leaves += [['stri', T('a')], ['stri', T('Ab')], RX_ICASE, ['stri', T('a.')], ['stri', T('b|a')], ['stri', T('a+')]]
         else:
-            leaves += [['byte', 97], ['byte', 98]]
+            leaves += [['byte', 97], ['byte', 98], ['byte', 0], ['byte', 255]]
         if self.allow_back:
             leaves.append(['back', 1])
         leaves += [['ref', x] for x in self.refs]
